@@ -81,6 +81,8 @@ def show(t, depth=0):
         return repr(t[1])
     if k in ("param", "global", "bound"):
         return t[1]
+    if k == "obj":
+        return "<%s %s>" % (t[1], ", ".join("%s=%s" % (a, show(v)) for a, v in t[2])[:80])
     if k == "local":
         return "%s@%d" % (t[1], t[2])
     if k == "attr":
@@ -158,7 +160,7 @@ def walk(t):
 
 _KINDS = set(["const", "param", "global", "attr", "sub", "call", "binop", "unary", "boolop", "cmp", "tuple", "list",
               "set", "dict", "ifexp", "elem", "idx", "phi", "carried", "undef", "comp", "lambda", "starred", "fstr",
-              "exc", "unknown", "bound", "slice", "local", "fmt", "spec", "keyfn", "gate"])
+              "exc", "unknown", "bound", "slice", "local", "fmt", "spec", "keyfn", "gate", "obj"])
 
 
 def children(t):
@@ -340,7 +342,9 @@ def _never_none(t):
     """terms that cannot evaluate to None: text, non-None literals, containers, paths joined by os.path.join"""
     if t[0] == "const":
         return t[1] is not None
-    if t[0] in ("fmt", "tuple", "list", "dict", "set"):
+    if t[0] in ("fmt", "tuple", "list", "dict", "set", "lambda", "obj"):
+        return True
+    if t[0] == "global" and t[1] in ("int", "str", "bool", "float", "list", "dict", "set", "tuple", "sorted"):
         return True
     if t[0] == "call" and t[1] in (("global", "os.path.join"), ("global", "str"), ("global", "list"), ("global", "dict"),
                                    ("global", "sorted"), ("global", "set"), ("global", "tuple"), ("global", "int"), ("global", "bool")):
@@ -416,6 +420,8 @@ def canon(t):
             return ("boolop", "and" if x[2][1] == "or" else "or", tuple(fn(("unary", "not", y)) or ("unary", "not", y) for y in x[2][2]))
         if k == "unary" and x[1] == "not" and x[2][0] == "unary" and x[2][1] == "not" and x[2][2][0] in ("cmp", "boolop") :
             return x[2][2]
+        if k == "call" and x[1] in (("global", "list"), ("global", "dict"), ("global", "set"), ("global", "tuple")) and not x[2] and not x[3]:
+            return ({"list": "list", "dict": "dict", "set": "set", "tuple": "tuple"}[x[1][1]], ())        # list() is []
         if k == "call" and x[1] == ("global", "len") and len(x[2]) == 1 and not x[3] and x[2][0][0] == "const" and isinstance(x[2][0][1], str):
             return ("const", len(x[2][0][1]))          # len("images-")
         if k == "call" and x[1] == ("global", "list") and len(x[2]) == 1 and not x[3] and x[2][0][0] == "comp" and x[2][0][1] == "gen":
@@ -1007,6 +1013,10 @@ class Extractor(object):
             base = E(node.value)
             if base[0] == "global":
                 return ("global", base[1] + "." + node.attr)
+            if base[0] == "obj" and isinstance(node.ctx, ast.Load):
+                for a_, v_ in base[2]:
+                    if a_ == node.attr:
+                        return v_          # an attribute of a record of a constant table
             if self.self_consts is not None and base == ("param", self.self_consts[0]) and isinstance(node.ctx, ast.Load):
                 cv = self.self_consts[1](node.attr)
                 if cv is not None:
@@ -1054,6 +1064,12 @@ class Extractor(object):
                         continue
                 kws.append((k.arg or "**", E(k.value)))
             kws = tuple(kws)
+            if func[0] == "lambda" and not args and not kws and func[1].startswith("lambda:"):
+                try:
+                    lam = ast.parse(func[1], mode="eval").body
+                    return self.expr(lam.body, {}, guards, loops, bound)      # a default factory: what it returns
+                except SyntaxError:
+                    pass
             if func[0] == "ifexp" and not bound:
                 # the callee was chosen before (a handler picked by a helper): each alternative is called under the condition
                 # it was chosen under
@@ -1117,9 +1133,31 @@ class Extractor(object):
             b = dict(bound or {})
             gens = []
             g0 = node.generators[0]
-            if len(node.generators) == 1 and not g0.ifs and isinstance(g0.iter, ast.Name) and g0.iter.id not in env \
+            if len(node.generators) == 1 and isinstance(g0.iter, ast.Name) and g0.iter.id not in env \
                     and g0.iter.id not in self.local_names and g0.iter.id not in b:
                 rows = self._table_rows(g0.iter.id)
+                if rows is not None and g0.ifs:
+                    # a filter over the table's own columns: the rows it keeps (anything else: not written out)
+                    kept = []
+                    for row in rows:
+                        rb0 = dict(b)
+
+                        def bind_row0(t, v):
+                            if isinstance(t, ast.Name):
+                                rb0[t.id] = v
+                            elif isinstance(t, (ast.Tuple, ast.List)):
+                                for i, e in enumerate(t.elts):
+                                    bind_row0(e, v[1][i] if v[0] == "tuple" and len(v[1]) == len(t.elts) else ("idx", v, i))
+                        bind_row0(g0.target, row)
+                        n_ev = len(self.events)
+                        vals_ = [canon(self.expr(c, env, guards, loops, rb0)) for c in g0.ifs]
+                        del self.events[n_ev:]
+                        if not all(v_[0] == "const" for v_ in vals_):
+                            kept = None
+                            break
+                        if all(bool(v_[1]) for v_ in vals_):
+                            kept.append(row)
+                    rows = kept
                 if rows is not None:
                     # a comprehension over a module-level table introduced after the pinned tree: its elements written out
                     out = []
@@ -1359,14 +1397,21 @@ class Extractor(object):
         v = self.const_resolver(name)
 
         def simple(x):
-            return isinstance(x, (str, int, float, bool, type(None))) or type(x).__name__ == "TypeMarker" \
-                or (isinstance(x, tuple) and all(simple(y) for y in x))
+            return isinstance(x, (str, int, float, bool, type(None))) or type(x).__name__ in ("TypeMarker", "LambdaConst") \
+                or (isinstance(x, tuple) and all(simple(y) for y in x)) \
+                or (type(x).__name__ == "ObjConst" and all(simple(y) for y in x.attrs.values()))
 
         def term(x):
             if isinstance(x, tuple):
+                if x and all(isinstance(y, (str, int, float, bool, type(None))) for y in x):
+                    return ("tuple", tuple(("const", y) for y in x))
                 return ("tuple", tuple(term(y) for y in x))
             if type(x).__name__ == "TypeMarker":
                 return ("global", x.name)
+            if type(x).__name__ == "LambdaConst":
+                return ("lambda", x.src)
+            if type(x).__name__ == "ObjConst":
+                return ("obj", x.qname, tuple(sorted((k, term(v)) for k, v in x.attrs.items())))
             return ("const", x)
         if isinstance(v, (list, tuple)) and 0 < len(v) <= 16 and all(simple(x) for x in v):
             return [term(x) for x in v]
